@@ -90,3 +90,19 @@ Example C08_same_criteria_premises_hold :
   length (fnodes (compute [7] (AdjGrid [false]) v None [MinDelta 0; MinNpix 0 1])) = 5%nat /\
   length (fnodes (compute [7] (AdjGrid [false]) v None [MinDelta 0; MinNpix 2 1])) = 3%nat.
 Proof. vm_compute. repeat split. Qed.
+
+(* ... and when the later parameters are no stricter than those of the computation (min_delta 0
+   in the prune call, min_npix no larger, the same other criteria; the computation may have used
+   any min_delta), "the stricter parameters" are the computation's own and C08 holds: the pruned
+   dendrogram IS the computed one (PruneLaxer.v). *)
+From Dendro Require Import PruneLaxer.
+Theorem C08_holds_when_the_later_parameters_are_no_stricter :
+  forall shape per vals minv d0 n0 m0 n m user,
+    Forall (fun k => 0 < k) shape -> 0 < m -> 0 < m0 -> n * m0 <= n0 * m -> nodelta user = true ->
+    prune_struct (MinDelta 0 :: MinNpix n m :: user)
+                 (compute shape (AdjGrid per) vals minv (MinDelta d0 :: MinNpix n0 m0 :: user))
+    = compute shape (AdjGrid per) vals minv (MinDelta d0 :: MinNpix n0 m0 :: user).
+Proof.
+  intros. apply grid_prune_laxer; [assumption |]. apply laxer_after_builtin; try assumption. reflexivity.
+Qed.
+Print Assumptions C08_holds_when_the_later_parameters_are_no_stricter.
